@@ -49,6 +49,33 @@ theorem readStrPayload_mono (us : Nat) (st : RState) (e : List Nat)
     · simp [hv, error_ok] at h
 
 
+theorem longStrPayload_mono (st : RState) (e : List Nat) (h : (longStrPayload st).2.ok = true) :
+    longStrPayload (st.ext e) = ((longStrPayload st).1, (longStrPayload st).2.ext e) := by
+  obtain ⟨inp, ok, t, n, pn⟩ := st
+  cases ok with
+  | false => simp [longStrPayload] at h
+  | true =>
+    simp only [longStrPayload, RState.ext, if_true] at h ⊢
+    have := readStrPayload_mono n ⟨inp, true, t, 0, pn⟩ e h
+    simp only [RState.ext] at this
+    exact this
+
+theorem longStrPayload_ok (st : RState) (h : (longStrPayload st).2.ok = true) : st.ok = true := by
+  cases hok : st.ok with
+  | true => rfl
+  | false => simp [longStrPayload, hok] at h
+
+theorem readLongStr_mono (st : RState) (e : List Nat) (h : (readLongStr st).2.ok = true) :
+    readLongStr (st.ext e) = ((readLongStr st).1, (readLongStr st).2.ext e) := by
+  obtain ⟨inp, ok, t, n, pn⟩ := st
+  unfold readLongStr at h ⊢
+  have h6 := longStrPayload_ok _ h
+  have hm := readMore_mono 8 ⟨inp, ok, 224, 0, pn⟩ e h6
+  have hx : ({ (RState.mk inp ok t n pn).ext e with tid := 0xE0, num := 0 } : RState) =
+      (RState.mk inp ok 224 0 pn).ext e := rfl
+  rw [hx, hm]
+  exact longStrPayload_mono _ e h
+
 theorem rts_mono (st : RState) (e : List Nat) (h : (readTypeAndSize st).2.ok = true) :
     readTypeAndSize (st.ext e) = ((readTypeAndSize st).1, (readTypeAndSize st).2.ext e) := by
   obtain ⟨inp, ok, t, n, pn⟩ := st
@@ -83,7 +110,13 @@ theorem rts_mono (st : RState) (e : List Nat) (h : (readTypeAndSize st).2.ok = t
                 have := readStrPayload_mono (val % 16 * 256 + b) ⟨r', true, 208, 0, pn⟩ e h
                 simp only [RState.ext] at this
                 rw [this]
-            · simp only [if_neg h4]
+            · simp only [if_neg h4] at h ⊢
+              by_cases h5 : val / 16 * 16 = 224
+              · simp only [if_pos h5] at h ⊢
+                have := readLongStr_mono ⟨r, true, t, n, pn⟩ e h
+                simp only [RState.ext] at this
+                rw [this]
+              · simp only [if_neg h5]
 
 theorem readUIntS_mono (st : RState) (e : List Nat) (h : (readUIntS st).2.ok = true) :
     readUIntS (st.ext e) = ((readUIntS st).1, (readUIntS st).2.ext e) := by
@@ -102,7 +135,7 @@ theorem readStringS_mono (st : RState) (e : List Nat) (h : (readStringS st).2.ok
   by_cases h1 : (readTypeAndSize st).2.ok = true
   · rw [rts_mono st e h1]
     simp only [h1, if_true, ext_ok, ext_tid] at h ⊢
-    by_cases h2 : (readTypeAndSize st).2.tid = 192 ∨ (readTypeAndSize st).2.tid = 208
+    by_cases h2 : (readTypeAndSize st).2.tid = 192 ∨ (readTypeAndSize st).2.tid = 208 ∨ (readTypeAndSize st).2.tid = 224
     · simp [h2]
     · simp [h2, error_ok] at h
   · simp [h1] at h
@@ -119,14 +152,14 @@ theorem readOptStrS_mono (st : RState) (e : List Nat) (h : (readOptStrS st).2.ok
       simp only [ext_tid] at h ⊢
       by_cases h2 : (readTypeAndSize st).2.tid = 16
       · simp [h2]
-      · by_cases h3 : (readTypeAndSize st).2.tid = 208 ∨ (readTypeAndSize st).2.tid = 192
+      · by_cases h3 : (readTypeAndSize st).2.tid = 224 ∨ (readTypeAndSize st).2.tid = 208 ∨ (readTypeAndSize st).2.tid = 192
         · simp [h2, h3]
         · simp [h2, h3, error_ok] at h
     · exfalso
       have hn : (readTypeAndSize st).2.ok = false := by simpa using h1
       by_cases h2 : (readTypeAndSize st).2.tid = 16
       · simp [h2, hn] at h
-      · by_cases h3 : (readTypeAndSize st).2.tid = 208 ∨ (readTypeAndSize st).2.tid = 192
+      · by_cases h3 : (readTypeAndSize st).2.tid = 224 ∨ (readTypeAndSize st).2.tid = 208 ∨ (readTypeAndSize st).2.tid = 192
         · simp [h2, h3, hn] at h
         · simp [h2, h3, error_ok] at h
 
